@@ -444,7 +444,7 @@ def run_case(desc, sh=None, seen=None):
     if got[0] == "err":
         isolation.tables_restore()
         rec = failure(desc["sub"], dict(desc=desc, text=text), G.expected_view(exp), list(got),
-                      tags=tags, behaviour="raises:" + got[1])
+                      tags=tags, behaviour=G.error_class(got))
     else:
         diff = G.compare(exp, got[1])
         if diff:
@@ -469,9 +469,9 @@ def run_case(desc, sh=None, seen=None):
 
 # ------------------------------------------------------------------------------------------------ enumeration
 BOUNDS = dict(
-    quick=dict(tree_full=5, tree_plain=6, widths_full=4, widths_alt=5, layout2=2, layout1=3, layout1_plain=4,
+    quick=dict(tree_all=4, tree_full=5, tree_plain=6, widths_full=4, widths_alt=5, layout2=2, layout1=3, layout1_plain=4,
                pairs=False),
-    thorough=dict(tree_full=6, tree_plain=7, widths_full=5, widths_alt=6, layout2=3, layout1=4, layout1_plain=5,
+    thorough=dict(tree_all=5, tree_full=6, tree_plain=7, widths_full=5, widths_alt=6, layout2=3, layout1=4, layout1_plain=5,
                   pairs=True),
 )
 NSHARD = 64
@@ -480,11 +480,11 @@ NSHARD = 64
 def _tree_descs(tier, k, nshard):
     """every case of trees / widths / layout that belongs to shard k of nshard (cut by tree shape and kinds)"""
     b = BOUNDS[tier]
-    full = ("G", "D", "Pd", "Pp") if tier == "quick" else ("G", "D", "Pd", "Pp", "Gd")
     idx = 0
     # ---- trees
     for n in range(1, b["tree_plain"] + 1):
-        kindset = full if n <= b["tree_full"] else ("G", "D")
+        kindset = ("G", "D", "Pd", "Pp", "Gd") if n <= b["tree_all"] else \
+                  ("G", "D", "Pd", "Pp") if n <= b["tree_full"] else ("G", "D")
         for ds in depth_seqs(n):
             for kinds in itertools.product(kindset, repeat=n):
                 if not any(x in ("D", "Pd", "Pp") for x in kinds):
@@ -493,7 +493,7 @@ def _tree_descs(tier, k, nshard):
                 if not mine(("t", ds, kinds), k, nshard):
                     continue
                 wlist = [WIDTH_ROTATION[idx % len(WIDTH_ROTATION)]]
-                if tier == "thorough" and n <= b["tree_full"]:
+                if tier == "thorough" and n <= b["tree_all"]:
                     wlist = [WIDTH_ROTATION[(idx + s) % len(WIDTH_ROTATION)] for s in (0, 1, 3)]
                 for w in wlist:
                     yield dict(sub="trees", depths=list(ds), kinds=list(kinds), phase=idx % FORMS,
@@ -586,7 +586,8 @@ def finish(total, tier, seed):
     if missing:
         raise HarnessError("vacuous run, nothing executed for: %s" % missing)
     b = BOUNDS[tier]
-    return dict(bounds=dict(tree_lines_all_kinds=b["tree_full"], tree_lines_group_def=b["tree_plain"], max_depth=4,
+    return dict(bounds=dict(tree_lines_all_kinds=b["tree_all"], tree_lines_without_dotted_groups=b["tree_full"],
+                            tree_lines_group_def=b["tree_plain"], max_depth=4,
                             widths_lines=b["widths_alt"], layout_two_decorations_lines=b["layout2"],
                             layout_one_decoration_lines=b["layout1_plain"]),
                 literal_alphabet=len(literals()), table_alphabet=len(table_literals()),
